@@ -51,6 +51,7 @@ type fxWrite struct {
 	field   string // first-level field of the root object, when known
 	why     string
 	pos     token.Pos
+	origin  ssa.Instruction // the instruction that performs the write (a store, a map update, a call of a writing builtin)
 }
 
 type fxSummary struct {
@@ -588,7 +589,7 @@ func (e *fxEngine) summarize(fn *ssa.Function) *fxSummary {
 			if addr != nil {
 				f = firstField(fn, addr)
 			}
-			s.writes = append(s.writes, fxWrite{root: r, guarded: calleeGuarded || held[ins] == "X", field: f, why: why, pos: ins.Pos()})
+			s.writes = append(s.writes, fxWrite{root: r, guarded: calleeGuarded || held[ins] == "X", field: f, why: why, pos: ins.Pos(), origin: ins})
 		}
 	}
 	pos := func(ins ssa.Instruction) string { return e.ctx.pos(ins.Pos()) }
@@ -644,7 +645,7 @@ func (e *fxEngine) summarize(fn *ssa.Function) *fxSummary {
 									if ff := firstField(fn, args[w.root.idx]); ff != "" {
 										f = ff
 									}
-									s.writes = append(s.writes, fxWrite{root: r, guarded: w.guarded || held[ins] == "X", field: f, why: why, pos: ins.Pos()})
+									s.writes = append(s.writes, fxWrite{root: r, guarded: w.guarded || held[ins] == "X", field: f, why: why, pos: ins.Pos(), origin: w.origin})
 								}
 							}
 						case "free":
@@ -653,10 +654,10 @@ func (e *fxEngine) summarize(fn *ssa.Function) *fxSummary {
 								if r.kind == "fresh" {
 									continue
 								}
-								s.writes = append(s.writes, fxWrite{root: r, guarded: w.guarded || held[ins] == "X", field: w.field, why: why, pos: ins.Pos()})
+								s.writes = append(s.writes, fxWrite{root: r, guarded: w.guarded || held[ins] == "X", field: w.field, why: why, pos: ins.Pos(), origin: w.origin})
 							}
 						default:
-							s.writes = append(s.writes, fxWrite{root: w.root, guarded: w.guarded || held[ins] == "X", field: w.field, why: why, pos: ins.Pos()})
+							s.writes = append(s.writes, fxWrite{root: w.root, guarded: w.guarded || held[ins] == "X", field: w.field, why: why, pos: ins.Pos(), origin: w.origin})
 						}
 					}
 				}
